@@ -20,6 +20,19 @@ def reset_state():
         pass
 
 
+def common_spacing(o):
+    """Precondition of the Gamma method as the reference model (vlib/refgamma.py) states it: within every ensemble the
+    smallest spacing of the replicas' configuration numbers divides the smallest spacing of each replica.  Computed from the
+    layout, so that checks do not depend on the wording or type of the library's refusal."""
+    by = {}
+    for n in o.names:
+        il = [int(c) for c in o.idl[n]] if n in getattr(o, 'idl', {}) else None
+        if il is None or len(il) < 2:
+            continue
+        by.setdefault(n.split('|')[0], []).append(min(b - a for a, b in zip(il, il[1:])))
+    return all(all(g % min(gs) == 0 for g in gs) for gs in by.values())
+
+
 def relerr(a, b, scale=None):
     a = np.asarray(a, dtype=float)
     b = np.asarray(b, dtype=float)
